@@ -101,6 +101,35 @@ Section Misc.
     unfold cap in Hsz. nia.
   Qed.
 
+  (* a tree whose root page is full holds at least as many elements as the least tree one level higher *)
+  Lemma full_root_size : forall h (r : node), root_ok L I h r -> is_full L I r = true ->
+    2 * mleaf * fanout ^ (h - 1) <= length (elements r) + 1.
+  Proof.
+    intros h r (K & B & R) F. unfold is_full in F. apply Nat.eqb_eq in F.
+    destruct h as [|h]; [destruct r; cbn in K; tauto|].
+    destruct r as [vs|vs cs]; cbn [kids_ok] in K; unfold n_vals, max_vals in F; cbn [vals is_leaf] in F.
+    - rewrite K. cbn [elements]. replace (1 - 1) with 0 by lia. rewrite Nat.pow_0_r. unfold mleaf. lia.
+    - destruct K as (Hn & Hl & Fa).
+      rewrite length_elements_inode by assumption.
+      assert (T : length cs * (mleaf * fanout ^ (h - 1)) <= total cs).
+      { apply total_ge. rewrite Forall_forall in *. intros c Hc. apply wfn_size. auto. }
+      replace (S h - 1) with (S (h - 1)) by lia. rewrite Nat.pow_succ_r'.
+      assert (Hf : 2 * fanout <= length cs) by (unfold fanout; lia).
+      nia.
+  Qed.
+
+  (* hence: if the root is full and the tree has at least H levels, the size has reached cap H *)
+  Theorem full_root_cap : forall (t : tree) H, Inv rank L I t -> 1 <= H ->
+    is_full L I (root t) = true -> H <= height (root t) -> cap H <= length (elements (root t)).
+  Proof.
+    intros t H [[h R] _] HH F Hh. pose proof R as (K & _).
+    rewrite (kids_ok_height _ rank dflt L I HI HI3 h _ K) in Hh.
+    pose proof (full_root_size h (root t) R F) as S.
+    assert (Hp : fanout ^ (H - 1) <= fanout ^ (h - 1)).
+    { apply Nat.pow_le_mono_r; [pose proof fanout_ge2; lia|lia]. }
+    unfold cap. nia.
+  Qed.
+
   (* an iterator path is never longer than the tree is high: level < height *)
   Lemma valid_cons2 : forall (n : node) i j q,
     valid n (i :: j :: q) = (is_leaf n = false /\ i <= n_vals n /\ valid (child n i) (j :: q)).
